@@ -2,6 +2,7 @@
 # tools/seedtest.sh <patch.diff> <check id>...   apply a seeded change to /repo, run checks, undo.
 patch="$(readlink -f "$1")"; shift
 git -C /repo apply "$patch" || { echo "patch does not apply"; exit 2; }
+export VERIF_EVIDENCE_DIR=/verif/build/seed_evidence
 for c in "$@"; do
   ./check "$c" --tier "${VERIF_TIER:-quick}" > "build/seedtest_$c.out" 2>&1
   rc=$?
